@@ -96,25 +96,25 @@ def check_licensed(ctx, p, d, where, adm):
     def rec(d):
         if d[0] == 'L':
             if not (0 <= d[1] < p.n and d[2] in adm[d[1]]):
-                ctx.fail('leaf_not_admitted', f'{where}: leaf {d} carries a tag that was not admitted for its token', {'deriv': repr(d), 'problem': p.gallina()})
+                ctx.fail('leaf_not_admitted', f'{where}: leaf {d} carries a tag that was not admitted for its token', {'deriv': repr(d), 'problem': p.gallina(), 'pjson': p.to_json()})
             return d[1], 1
         if d[0] == 'U':
             s, l = rec(d[3])
             if d[2] not in p.unary.get(A.dcat(d[3]), []):
-                ctx.fail('unary_not_licensed', f'{where}: unary node {d[2]} is not a unary-rule result for {A.dcat(d[3])}', {'deriv': repr(d), 'problem': p.gallina()})
+                ctx.fail('unary_not_licensed', f'{where}: unary node {d[2]} is not a unary-rule result for {A.dcat(d[3])}', {'deriv': repr(d), 'problem': p.gallina(), 'pjson': p.to_json()})
             if p.n > 1 and l == p.n:
-                ctx.fail('unary_at_root', f'{where}: a unary step spans the whole multi-word sentence', {'deriv': repr(d), 'problem': p.gallina()})
+                ctx.fail('unary_at_root', f'{where}: a unary step spans the whole multi-word sentence', {'deriv': repr(d), 'problem': p.gallina(), 'pjson': p.to_json()})
             return s, l
         s1, l1 = rec(d[4])
         s2, l2 = rec(d[5])
         if s2 != s1 + l1:
-            ctx.fail('not_adjacent', f'{where}: children of {d[:4]} are not adjacent spans', {'deriv': repr(d), 'problem': p.gallina()})
+            ctx.fail('not_adjacent', f'{where}: children of {d[:4]} are not adjacent spans', {'deriv': repr(d), 'problem': p.gallina(), 'pjson': p.to_json()})
         if (d[2], d[3]) not in p.binary.get((A.dcat(d[4]), A.dcat(d[5])), []):
-            ctx.fail('binary_not_licensed', f'{where}: node category/head {d[2], d[3]} is not a grammar result for its children', {'deriv': repr(d), 'problem': p.gallina()})
+            ctx.fail('binary_not_licensed', f'{where}: node category/head {d[2], d[3]} is not a grammar result for its children', {'deriv': repr(d), 'problem': p.gallina(), 'pjson': p.to_json()})
         return s1, l1 + l2
     s, l = rec(d)
     if (s, l) != (0, p.n) or A.dcat(d) not in p.roots:
-        ctx.fail('not_complete', f'{where}: returned derivation does not span the sentence with an allowed root', {'deriv': repr(d), 'problem': p.gallina()})
+        ctx.fail('not_complete', f'{where}: returned derivation does not span the sentence with an allowed root', {'deriv': repr(d), 'problem': p.gallina(), 'pjson': p.to_json()})
 
 
 def pops_monotone(ctx, p, r):
@@ -124,9 +124,95 @@ def pops_monotone(ctx, p, r):
         if pr is None:
             return
         if prev is not None and pr > prev:
-            ctx.fail('pops_not_monotone', f'pop {k} has priority {pr / A.SCALE} above the previous pop {prev / A.SCALE}', {'problem': p.gallina(), 'pop': k})
+            ctx.fail('pops_not_monotone', f'pop {k} has priority {pr / A.SCALE} above the previous pop {prev / A.SCALE}', {'problem': p.gallina(), 'pop': k, 'pjson': p.to_json()})
             return
         prev = pr
+
+
+def problem_from_json(d):
+    if 'real' in d:
+        import random
+        p = real_problem(random.Random(0), d['real'], nbest=d['nbest'])
+        p.tag = numpy.array(d['tag'], dtype=numpy.float32); p.dep = numpy.array(d['dep'], dtype=numpy.float32)
+        p.n, p.K = p.tag.shape
+        p.pen8, p.pruning, p.use_beta, p.theta_odd, p.max_step = d['pen8'], d['pruning'], d['use_beta'], d['theta_odd'], d['max_step']
+        return p
+    return A.Problem(d['tag'], d['dep'], {(x, y): [(c, h) for c, h in rs] for x, y, rs in d['binary']}, {x: rs for x, rs in d['unary']}, d['roots'],
+                     pen8=d['pen8'], pruning=d['pruning'], use_beta=d['use_beta'], theta_odd=d['theta_odd'], nbest=d['nbest'], max_step=d['max_step'])
+
+
+def replay(data, focus):
+    """re-run the recorded failing problems on the current implementation with the same oracles; exit 1 if any still fails"""
+    import common
+    ctx = common.Ctx(data['property'] + '_replay', 'quick')
+    n = 0
+    for f in data.get('failures', []):
+        d = f.get('data', {})
+        if not isinstance(d, dict) or 'pjson' not in d:
+            continue
+        p = problem_from_json(d['pjson'])
+        judge(ctx, focus, p, p.run(), 'real' in d['pjson'] and d['pjson']['real'])
+        n += 1
+    for f in ctx.failures:
+        print(f"REPRODUCED [{f['kind']}]: {f['desc'][:300]}")
+    print(f'replayed {n} recorded problem(s): {len(ctx.failures)} failure(s) reproduce')
+    if not n:
+        print(json_dump(data))
+    return 1 if ctx.failures else 0
+
+
+def json_dump(data):
+    import json
+    return json.dumps(data, indent=1, default=str)[:6000]
+
+
+def judge(ctx, focus, p, r, real):
+    nbest = p.nbest
+    pops = len(r['trace'])
+    budget_hit = pops >= p.max_step
+    # ---- oracles
+    goals = [A.node_deriv(g) for g in r['goals']]
+    scores16 = [p.z(g['in'] + g['out']) for g in r['goals']]
+    adm = A.admitted(p)
+    chart = A.all_derivations(p, adm, limit=60000)
+    comp = A.complete_derivations(p, chart) if chart is not None else None
+    if chart is None:
+        ctx.count('oracle_skipped_too_many_derivations')
+    head_uniform = len({hl for rs in (p.binary.seen.values() if real else p.binary.values()) for _, hl in rs}) <= 1
+    pj = {'problem': (freeze(p, r) if real else p).gallina(), 'grammar': real or 'synthetic', 'pjson': p.to_json()}
+    for i, d in enumerate(goals):
+        if focus in ('c02', 'c10', 'c16', 'c01'):
+            check_licensed(ctx, p, d, f'result {i}', adm)
+        if focus in ('c09', 'c10', 'c01'):
+            want = A.total8(p, d) * 2
+            if want != scores16[i]:
+                ctx.fail('score_mismatch', f'reported score {scores16[i] / A.SCALE} of result {i} is not the model score {want / A.SCALE} of the returned derivation', dict(pj, deriv=repr(d)))
+    if focus == 'c01' and nbest == 1 and head_uniform and comp is not None:
+        pops_monotone(ctx, p, r)
+        if r['status'] == 0:
+            best = max(A.total8(p, d) for d in comp) * 2 if comp else None
+            if best is None or scores16[0] != best:
+                ctx.fail('suboptimal', f'first parse scores {scores16[0] / A.SCALE} but the best derivation scores {None if best is None else best / A.SCALE}', pj)
+        elif comp and not budget_hit:
+            ctx.fail('false_failure', f'sentence reported as failed although {len(comp)} derivation(s) exist within the step budget', pj)
+    if focus == 'c16' and comp is not None and not budget_hit:
+        if r['status'] != 0 and comp:
+            ctx.fail('false_failure', 'sentence failed although a derivation over the beam-admitted tags exists', pj)
+        if r['status'] == 0 and not comp:
+            ctx.fail('beam_escaped', 'sentence parsed although no derivation exists over the beam-admitted tags', pj)
+    if focus == 'c10' and comp is not None and not budget_hit:
+        allsc = sorted((A.total8(p, d) * 2 for d in comp), reverse=True)
+        want_n = min(p.nbest, len(comp))
+        if len(goals) != want_n:
+            ctx.fail('nbest_count', f'asked for {p.nbest} parses, {len(comp)} derivations exist, {len(goals)} returned', pj)
+        if len(set(goals)) != len(goals):
+            ctx.fail('nbest_duplicate', 'the same derivation was returned twice', pj)
+        if scores16 != sorted(scores16, reverse=True):
+            ctx.fail('nbest_order', f'scores are not in non-increasing order: {scores16}', pj)
+        if scores16 != allsc[:len(scores16)]:
+            ctx.fail('nbest_not_best', f'returned scores {scores16} are not the {len(scores16)} largest of all derivation scores {allsc[:8]}', pj)
+
+    return goals
 
 
 def run_family(ctx, focus, pfile):
@@ -170,49 +256,9 @@ def run_family(ctx, focus, pfile):
             descr.append({'n': p.n, 'nbest': p.nbest, 'pops': pops, 'status': r['status'], 'grammar': real or 'synthetic'})
         else:
             ctx.count('trace_too_long_for_coq')
-        # ---- oracles
-        goals = [A.node_deriv(g) for g in r['goals']]
-        scores16 = [p.z(g['in'] + g['out']) for g in r['goals']]
-        adm = A.admitted(p)
-        chart = A.all_derivations(p, adm, limit=60000)
-        comp = A.complete_derivations(p, chart) if chart is not None else None
-        if chart is None:
-            ctx.count('oracle_skipped_too_many_derivations')
-        head_uniform = len({hl for rs in (p.binary.seen.values() if real else p.binary.values()) for _, hl in rs}) <= 1
-        pj = {'problem': (freeze(p, r) if real else p).gallina(), 'grammar': real or 'synthetic'}
-        for i, d in enumerate(goals):
-            if focus in ('c02', 'c10', 'c16', 'c01'):
-                check_licensed(ctx, p, d, f'result {i}', adm)
-            if focus in ('c09', 'c10', 'c01'):
-                want = A.total8(p, d) * 2
-                if want != scores16[i]:
-                    ctx.fail('score_mismatch', f'reported score {scores16[i] / A.SCALE} of result {i} is not the model score {want / A.SCALE} of the returned derivation', dict(pj, deriv=repr(d)))
-        if focus == 'c01' and nbest == 1 and head_uniform and comp is not None:
-            pops_monotone(ctx, p, r)
-            if r['status'] == 0:
-                best = max(A.total8(p, d) for d in comp) * 2 if comp else None
-                if best is None or scores16[0] != best:
-                    ctx.fail('suboptimal', f'first parse scores {scores16[0] / A.SCALE} but the best derivation scores {None if best is None else best / A.SCALE}', pj)
-            elif comp and not budget_hit:
-                ctx.fail('false_failure', f'sentence reported as failed although {len(comp)} derivation(s) exist within the step budget', pj)
-        if focus == 'c16' and comp is not None and not budget_hit:
-            if r['status'] != 0 and comp:
-                ctx.fail('false_failure', 'sentence failed although a derivation over the beam-admitted tags exists', pj)
-            if r['status'] == 0 and not comp:
-                ctx.fail('beam_escaped', 'sentence parsed although no derivation exists over the beam-admitted tags', pj)
-        if focus == 'c10' and comp is not None and not budget_hit:
-            allsc = sorted((A.total8(p, d) * 2 for d in comp), reverse=True)
-            want_n = min(p.nbest, len(comp))
-            if len(goals) != want_n:
-                ctx.fail('nbest_count', f'asked for {p.nbest} parses, {len(comp)} derivations exist, {len(goals)} returned', pj)
-            if len(set(goals)) != len(goals):
-                ctx.fail('nbest_duplicate', 'the same derivation was returned twice', pj)
-            if scores16 != sorted(scores16, reverse=True):
-                ctx.fail('nbest_order', f'scores are not in non-increasing order: {scores16}', pj)
-            if scores16 != allsc[:len(scores16)]:
-                ctx.fail('nbest_not_best', f'returned scores {scores16} are not the {len(scores16)} largest of all derivation scores {allsc[:8]}', pj)
+        goals = judge(ctx, focus, p, r, real)
         if it < 3:
-            ctx.sample({'problem': pj['problem'][:600], 'status': r['status'], 'pops': pops, 'goals': [repr(g) for g in goals][:2]})
+            ctx.sample({'problem': p.to_json(), 'status': r['status'], 'pops': pops, 'goals': [repr(g) for g in goals][:2]})
     bad = ctx.coq_cases('trace', A.PRE, cases, chunk=12, describe=lambda i: descr[i])
     ctx.stats['trace_cases'] = len(cases)
     return cases
